@@ -189,7 +189,8 @@ def _blackbox(case, ctx):
     if case["dseed"] % 3 == 0:
         # the instance had an earlier life: fitted on another problem with more classes and other label values (of the same type);
         # after fit on this problem nothing of that may show (all monitors below run on the reused instance)
-        k0 = k + 2
+        # (every other case: the SAME number of classes with other label values - nothing of the earlier label table may survive either)
+        k0 = k + 2 if case["dseed"] % 2 else k
         X0, c0, _ = pzoo.make_panel(rng, max(case["ni"], 2 * k0), case["nc"], case["nt"] + 3, classes=k0)
         sample = np.asarray(y).tolist()[0]
         if isinstance(sample, str):
